@@ -39,7 +39,13 @@ META = {
                    "Speller::AutoSelectPreviousMatch pushes back a copied segment without comparing positions; the model follows it and "
                    "agrees with the code (schemas vs_auto / vs_autof) including the whole segment list, and the geometric invariant is monitored on the "
                    "implementation's own segment list for every schema (session_common.seg_geometry), but that the copy fits is not proved. The recursion of "
-                   "FindEarlierMatch is modelled with fuel |input|+1; that the fuel is never what stops it is not proved."),
+                   "FindEarlierMatch is modelled with fuel |input|+1; that the fuel is never what stops it is not proved. The key binder's re-entrant "
+                   "ProcessKey is modelled WITHOUT fuel (the redirecting_ flag makes the nested chain the chain minus the binder: "
+                   "C02.keybinder_nested_chain); the geometric invariant is proved through it (C01.geometry_reachable_keybinder) and "
+                   "ReinterpretPagingKey's partial operations are in range (C01.keybinder_reinterpret_in_range); an exception escaping the nested "
+                   "ProcessKey would leave redirecting_ set (the binder dead for the session): not a crash, runtime-only. Ascii composer: the geometric "
+                   "invariant for every timed history (C01.geometry_reachable_timed), its PushInput within the input (C01.ascii_pushinput_in_range); its "
+                   "`(char)ch` narrowing for ch = 0x7f and islower/toupper on int keycodes are covered by the sanitizer runs only."),
     "design_ref": "DESIGN.md §3 C01",
 }
 
